@@ -9,18 +9,25 @@ INV = ['C10_Barrier', 'C10_FailureStops', 'C06_NoLostCompletion']
 def run(tier, seed):
     alpha = ['complete', 'pause', 'play']
     alpha_k = ['complete', 'pause', 'play', 'kill']
+    # a pause requested by a listener (or by the step itself) while the workchain enters WAITING is still undelivered when the
+    # completions arrive: a failure parked behind it must not be replaced by a later success
+    lp = core_check.reentrant_plans(['L_waiting', 'step', 'on_wait'], [('pause', 'p2')], occs=(1,))
     if tier == 'quick':
         mc = [dict(name='C10_orders', progs=C.fam(['W1', 'W2', 'W3', 'W4', 'W5', 'W6']), plans=[[]], alphabet=['complete'], k=3, invariants=INV),
               dict(name='C10_pause', progs=C.fam(['W1', 'W2', 'W3', 'W5']), plans=[[]], alphabet=alpha, k=4, invariants=INV)]
         rp = [dict(name='C10_orders', progs=C.fam(['W1', 'W2', 'W3', 'W4', 'W5', 'W6']), plans=[[]], alphabet=['complete'], k=3),
               dict(name='C10_pause', progs=C.fam(['W1', 'W3']), plans=[[]], alphabet=alpha_k, k=3),
-              dict(name='C10_children', progs=C.fam(['W1', 'W2', 'W3', 'W6']), plans=[[]], alphabet=alpha, k=3, run_kw={'children': True})]
+              dict(name='C10_children', progs=C.fam(['W1', 'W2', 'W3', 'W6']), plans=[[]], alphabet=alpha, k=3, run_kw={'children': True}),
+              dict(name='C10_lpause', progs=C.fam(['W1', 'W2']), plans=lp, alphabet=['complete', 'play'], k=3)]
+        mc.append(dict(name='C10_lpause', progs=C.fam(['W1', 'W2', 'W4']), plans=lp, alphabet=['complete', 'play'], k=4, invariants=INV))
     else:
         mc = [dict(name='C10_orders', progs=C.fam(['W1', 'W2', 'W3', 'W4', 'W5', 'W6']), plans=[[]], alphabet=['complete'], k=3, invariants=INV),
               dict(name='C10_pause', progs=C.fam(['W1', 'W2', 'W3', 'W4', 'W5', 'W6']), plans=[[]], alphabet=alpha_k, k=5, invariants=INV)]
         rp = [dict(name='C10_orders', progs=C.fam(['W1', 'W2', 'W3', 'W4', 'W5', 'W6']), plans=[[]], alphabet=['complete'], k=3),
               dict(name='C10_pause', progs=C.fam(['W1', 'W2', 'W3', 'W5']), plans=[[]], alphabet=alpha_k, k=4),
-              dict(name='C10_children', progs=C.fam(['W1', 'W2', 'W3', 'W4', 'W6']), plans=[[]], alphabet=alpha_k, k=4, run_kw={'children': True})]
+              dict(name='C10_children', progs=C.fam(['W1', 'W2', 'W3', 'W4', 'W6']), plans=[[]], alphabet=alpha_k, k=4, run_kw={'children': True}),
+              dict(name='C10_lpause', progs=C.fam(['W1', 'W2', 'W4', 'W5']), plans=lp, alphabet=['complete', 'play', 'pause'], k=4)]
+        mc.append(dict(name='C10_lpause', progs=C.fam(['W1', 'W2', 'W4', 'W5', 'W6']), plans=lp, alphabet=['complete', 'play', 'pause'], k=5, invariants=INV))
     return core_check.run_check(
         PID, tier, seed, mc, rp,
         level_text='TLC exhaustive over completion orders/outcomes/groupings + replay on real WorkChains (futures and launched children)',
